@@ -112,8 +112,7 @@ include hc hb
 
 theorem iterCount_step_inc_k (k : Comp) (hk : k ≠ .special) (b : Bytes) :
     Bytes.iterCount c k (Bytes.incCount c k (Bytes.at b (b.index + 1))) = Bytes.iterCount c k b + 1 := by
-  unfold Bytes.iterCount Bytes.currentCount Bytes.incCount Bytes.at
-  simp only [hb, if_true]
+  unfold Bytes.iterCount Bytes.incCount Bytes.at
   cases hf : c.feats.format with
   | false => simp [PNTotal.notFormat_iterContig k hf]
   | true =>
